@@ -6,6 +6,21 @@ ROOT = os.path.dirname(os.path.dirname(os.path.abspath(__file__)))
 
 # property id -> (engine, level category, technique, level text, level note, design ref)
 CHECKS = {
+    "C04": ("SEQ", "model_checking",
+            "explicit-state exploration of all write/read/query/remove/flush/reopen histories up to a depth bound on the real DynamicContainer, Installation and ArchiveManager, lock-step with a map model",
+            "Every history up to depth 4 (quick) / 5 (thorough) with at most 3 writes over size classes {0,1,50,100,1000,70000} x payload classes (random, zeros, starts with BLTE, BLTE at 0x1E, nested BLTE file, local header + BLTE), reads/queries/removes of any earlier object, flush and reopen, on DynamicContainer (with and without LRU), Installation and ArchiveManager (ZLib/LZ4), also from pre-states with a 200 000-byte object already mapped; no state merging (the mmap snapshot is hidden state). The encoding key is computed independently (MD5 of the single-chunk BLTE). Oracle: a read of a live key returns exactly the written bytes, query is true, reopen keeps everything.",
+            "Trusted: the map model and the independent key computation. Histories beyond the depth bound, more than 3 writes, data files above 64 MiB and concurrent use (C11) are not covered.",
+            "DESIGN.md §4 C04"),
+    "C10": ("SEQ", "model_checking",
+            "explicit-state exploration of all cache operation histories up to a depth bound per configuration on the real MemoryCache / DiskCache, lock-step with a bounded-map model with TTL classes",
+            "Every history up to the depth bound over put / put_with_ttl(0 | 1 h) / get / contains / remove / clear / size / stats (+ new instance on the same directory for the disk cache) x eviction policies x tiny limits (max_entries 1..3, max_memory_bytes from 1 byte) x value sizes from 0 to above the limit x colliding keys (incl. x.y / x.tmp), no state merging. Oracle: a get returns the latest successful put for that exact key or nothing (nothing only after remove/clear/expiry or a put at a limit), limits hold after every operation, books equal what is retrievable after a settling pass, a disk value survives a new instance until its TTL ends and not after.",
+            "Trusted: the bounded-map model and the settling rule for expired-but-untouched entries (DESIGN §6). The Random policy is judged on victim-independent clauses only.",
+            "DESIGN.md §4 C10"),
+    "C13": ("NET", "model_checking",
+            "exhaustive enumeration of endpoint-behaviour assignments x endpoint class x query script x TTL class x cache kind on the real RibbitTactClient over loopback mocks; every single cut position of valid TCP responses",
+            "The full product of 12 (thorough 13) HTTP behaviours for each TACT endpoint x 7 (8) Ribbit TCP behaviours for versions/qq/1h/disk, a reduced behaviour set across all endpoint classes, scripts (query twice; query, new client on the same cache directory, query), TTL {0, 1 h} and cache kinds, endpoint URLs present/empty, and every single cut position of every valid V1/V2 TCP response. Oracle: a reference decision function (good / transient / definitive / unclassified) over the request logs of the mocks: order HTTPS, HTTP, TCP; go on only after a transient failure; first good answer returned with the rows of the endpoint that answered; cached answers served without traffic until the TTL ends; failures never cached; parsed document independent of the cut.",
+            "Trusted: loopback stands for the network; plain HTTP for the HTTPS endpoint; 200+malformed, accept-and-close and close-mid-body are not judged on stop-vs-continue. Stall behaviours (30 s client timeouts) run in the thorough tier only.",
+            "DESIGN.md §4 C13"),
     "C01": ("ENUM", "exploration",
             "bounded-exhaustive enumeration of BLTE builder programs (configuration prefix + up to 2/3 add-calls over payload classes, modes, chunk sizes, encryption specs), judged by identity, an independent decoder and a chunk-table audit",
             "Every builder program up to depth 2 (quick) / 3 (thorough) over add_data / add_mixed_data / add_encrypted_data (honest and foreign block index) / add_chunk x 21 payload classes (empty, 1 byte, mode bytes, chunk_size-1/0/+1, compressible, incompressible, nested BLTE, 258-chunk) x modes N/Z/4 x chunk sizes {0,4,5,default,1024} x Salsa20/ARC4 specs, plus compress/single_chunk. If every call returned Ok the container must decode (real decoder and an independent decoder with its own Salsa20/RC4/LZ4/table parser) to the concatenation of the payloads, and every table entry (compressed size, decompressed size, MD5) must describe its chunk. Chunk-size-0 programs run in child processes under an address-space limit.",
